@@ -101,7 +101,6 @@ var noiseKinds = []string{"broken_sibling_package", "ext_test", "in_test", "igno
 var repairable = map[string]bool{"type_error_root": true, "type_error_import": true, "type_error_import_body": true, "unused_import_root": true,
 	"unused_import_dep": true, "syntax_error_root": true, "import_of_missing_package": true, "empty_go_file": true}
 
-
 type c17 struct{}
 
 func (c17) ID() string { return "C17" }
